@@ -364,3 +364,38 @@ def obs_g2m(gjson, ibo, uhc):
 
 def coq_g2m(gjson, ibo, uhc):
     return "run_g2m %s %s %s" % (E.cb(ibo), E.cb(uhc), E.coq_mgraph(gjson))
+
+
+# ------------------------------------------------------------------ rsmi_to_its(rsmi, node_attrs=<caller's list>)
+
+def obs_pipeline_na(rsmi, node_attrs):
+    import synkit.IO.chem_converter as cc
+    from synkit.Graph.ITS.its_decompose import its_decompose
+    I = cc.rsmi_to_its(rsmi, node_attrs=list(node_attrs))
+    g, h = its_decompose(I)
+    rec = []
+    orig = cc.GraphToMol
+
+    class Rec(orig):
+        def graph_to_mol(self, graph, *a, **k):
+            rec.append(graph.copy())
+            return orig.graph_to_mol(self, graph, *a, **k)
+    cc.GraphToMol = Rec
+    try:
+        cc.its_to_rsmi(I)
+    finally:
+        cc.GraphToMol = orig
+    if len(rec) != 2:
+        return ["unexpected-call-pattern", len(rec)]
+    return [E.obs_its(I), E.obs_mgraph(g), E.obs_mgraph(h), E.obs_mgraph(rec[0]), E.obs_mgraph(rec[1])]
+
+
+def coq_pipeline_na(rsmi, node_attrs):
+    if "atom_map" not in node_attrs or any(k not in NODE_ATTRS for k in node_attrs):
+        return None
+    a, b = rsmi.split(">>")
+    ma, mb = sanitized_mol(a), sanitized_mol(b)
+    if ma is None or mb is None:
+        return None
+    sel = " ".join(E.cb(k in node_attrs) for k in NODE_ATTRS)
+    return "run_str_sel (AS %s) %s %s" % (sel, coq_rmol(read_rmol(ma)), coq_rmol(read_rmol(mb)))
